@@ -8,6 +8,8 @@ namespace AIToolbox::MDP {
             S(s), A(a), discount_(discount), transitions_(A, SparseMatrix2D(S, S)),
             rewards_(S, A), rand_(Seeder::getSeed())
     {
+        setDiscount(discount);
+
         // Make transition matrix true probability
         for ( size_t a = 0; a < A; ++a )
             transitions_[a].setIdentity();
@@ -39,7 +41,8 @@ namespace AIToolbox::MDP {
     }
 
     void SparseModel::setDiscount(const double d) {
-        if ( d <= 0.0 || d > 1.0 ) throw std::invalid_argument("Discount parameter must be in (0,1]");
+        // Negated form so that NaN is rejected too.
+        if ( !(d > 0.0 && d <= 1.0) ) throw std::invalid_argument("Discount parameter must be in (0,1]");
         discount_ = d;
     }
 
